@@ -44,7 +44,8 @@ def gen_layers_case(rng, base, present=None):
          'short': optlib.SHORTS[0], 'long': 'probe', 'inverse': '', 'choices': [], 'env_var': 'DOITV_A'}
     if present is None:
         p_ = rng.choice([0.2, 0.5, 0.5, 0.8])
-        present = [l for l in LAYERS if rng.random() < p_]
+        cut = rng.choice([0, 0, 0, 1, 2, 3, 3, 4, 5, 6, 6, 7, 8])     # nothing above layer `cut`: the weaker layers get to decide too
+        present = [l for i, l in enumerate(LAYERS) if i >= cut and rng.random() < p_]
     case = dict(BLANK, path='main', spec=[dict(x) for x in base] + [o], n_base=len(base), ini_mode='mixed')
 
     def cfgval(l, typed_ok):
@@ -69,29 +70,50 @@ def gen_layers_case(rng, base, present=None):
                          {'int': '77', 'list': 'more', 'str': 'cmdline'}[ty]])
     case['asgs'] = asgs
     case['argv'] = optlib.render(asgs, False, [])
-    case['klayers'] = {'present': present, 'type': ty}
+    case['klayers'] = {'present': present, 'type': ty, 'opt': o}
     return case
 
 
+def probe_opt(case):
+    return next((o for o in case['spec'] if o['name'] == 'probe'), None)
+
+
 def winner_request(case):
-    o = case['spec'][-1]
+    o = probe_opt(case) or dict(case['klayers'].get('opt') or {})
     fs = case.get('files') or {}
 
     def sec(kind, fld):
         return [e for e in (fs.get(kind) or {}).get(fld, []) if e[0] == 'probe'] if fs.get(kind) else []
     return {'model': 'opt', 'op': 'winner', 'opt': o,
-            'occ': [[False, a[2]] for a in case['asgs'] or []],
+            'occ': [[False, a[2]] for a in case['asgs'] or [] if a[1] == 'probe' and len(a) == 3],
             'envv': dict((k, v) for k, v in case['env']).get('DOITV_A'),
             'dodo': case['dodo'],
             'gApi': case['glob'], 'gToml': sec('toml', 'glob'), 'gCfg': sec('cfg', 'glob'),
             'sApi': case['ini'], 'sToml': sec('toml', 'ini'), 'sCfg': sec('cfg', 'ini')}
 
 
+def present_of(case):
+    fs = case.get('files') or {}
+
+    def has(lst):
+        return any(e[0] == 'probe' for e in lst or [])
+    flags = {'cmdline': any(a[1] == 'probe' for a in case['asgs'] or []),
+             'environ': any(k == 'DOITV_A' for k, _ in case['env']),
+             'dodoCfg': has(case['dodo']),
+             'secCfg': has((fs.get('cfg') or {}).get('ini')), 'secToml': has((fs.get('toml') or {}).get('ini')),
+             'secApi': has(case['ini']),
+             'globCfg': has((fs.get('cfg') or {}).get('glob')), 'globToml': has((fs.get('toml') or {}).get('glob')),
+             'globApi': has(case['glob'])}
+    return [l for l in LAYERS if flags[l]]
+
+
 def judge_layers(case, impl, model):
     """-> (viol, div) additions for a layers case"""
     viol, div = [], []
+    if probe_opt(case) is None or case.get('malformed'):
+        return viol, div
     w = (model.get('_aux') or {}).get('winner') or {}
-    present = case['klayers']['present']
+    present = present_of(case)          # from the case as it is now (the shrinker removes entries)
     want_layer = next((l for l in LAYERS if l in present), 'declared')      # the order the property states
     if w.get('winner') != want_layer:
         viol.append(('precedence', 'layers present %s: the model\'s winner is %s, the stated order gives %s'
@@ -105,9 +127,10 @@ def judge_layers(case, impl, model):
     ty = case['klayers']['type']
     if 'ok' in r and ty != 'list':
         i = LAYERS.index(want_layer) if want_layer in LAYERS else None
-        exp = case['spec'][-1]['default'] if i is None else _layer_typed(ty, i, want_layer)
+        exp = probe_opt(case)['default'] if i is None else _layer_typed(ty, i, want_layer)
         if want_layer == 'cmdline':
-            exp = _layer_typed(ty, 0, 'cmdline') if len(case['asgs']) == 1 else {'int': 77, 'str': 'cmdline'}[ty]
+            last = [a for a in case['asgs'] if a[1] == 'probe'][-1][2]
+            exp = int(last) if ty == 'int' else last
         if got != exp:
             viol.append(('precedence', 'layers present %s: probe = %r, the layer that must win (%s) says %r'
                          % (present, got, want_layer, exp)))
